@@ -3,6 +3,7 @@ package main
 import (
 	"fmt"
 	"os"
+	"sort"
 	"strconv"
 	"time"
 
@@ -94,6 +95,21 @@ func debugRun(args []string) {
 		x.Run(f, vals)
 	}()
 	fmt.Printf("executed in %v: states=%d merges=%d forks=%d instrs=%d terms=%d obligations=%d\n", time.Since(t1), x.NStates, x.NMerges, x.NForks, x.NInstr, x.TB().NTerms, len(x.Obligations))
+	if os.Getenv("GOSMT_PROFTERMS") != "" {
+		type kv struct {
+			k string
+			v int
+		}
+		var l []kv
+		for k, v := range x.TermProf {
+			l = append(l, kv{k, v})
+		}
+		sort.Slice(l, func(i, j int) bool { return l[i].v > l[j].v })
+		for i := 0; i < 15 && i < len(l); i++ {
+			fmt.Printf("TERMS %8d %s\n", l[i].v, l[i].k)
+		}
+		return
+	}
 	res, st, err := x.Discharge(solverName(), 60*time.Second, nil, nil)
 	if err != nil {
 		panic(err)
